@@ -18,7 +18,8 @@ type c16Case struct {
 	Writers   int    `json:"writers"`
 	Pingers   int    `json:"pingers"`
 	Flate     bool   `json:"flate"`
-	ThenClose bool   `json:"then_user_close"` // after an error-triggered close the user calls Close as well
+	ThenClose bool   `json:"then_user_close"`     // after an error-triggered close the user calls Close as well
+	NoStatus  bool   `json:"no_status,omitempty"` // the Close frame in question carries no status code (empty payload)
 	Seed      int64  `json:"seed"`
 }
 
@@ -147,9 +148,17 @@ func runC16Case(cc c16Case) (string, string) {
 	closeRet := make(chan error, 1)
 	switch cc.Trigger {
 	case "local-close":
-		go func() { closeRet <- c.Close(websocket.StatusNormalClosure, "bye") }()
+		if cc.NoStatus {
+			go func() { closeRet <- c.Close(websocket.StatusNoStatusRcvd, "") }()
+		} else {
+			go func() { closeRet <- c.Close(websocket.StatusNormalClosure, "bye") }()
+		}
 	case "peer-close":
-		peer.writeFrame(RawFrame{Fin: true, Op: 8, Payload: []byte{0x03, 0xe9}})
+		if cc.NoStatus {
+			peer.writeFrame(RawFrame{Fin: true, Op: 8})
+		} else {
+			peer.writeFrame(RawFrame{Fin: true, Op: 8, Payload: []byte{0x03, 0xe9}})
+		}
 	case "proto-error":
 		peer.writeFrame(RawFrame{Fin: true, Op: 1, Rsv2: true, Payload: []byte("x")})
 	case "read-limit":
@@ -221,7 +230,7 @@ func opsOf(tr []RawFrame) string {
 
 func runC16(ctx *runCtx) {
 	rep := ctx.rep
-	rep.Rule = "scenarios: trigger {local Close, peer-initiated Close, protocol violation (1002), read limit (1009), CloseRead policy violation (1008)} x peer echo {early, late, never} x 0..4 concurrent writers (Write and streaming Writer) x 0..2 pingers x role x compression x user Close after an error-triggered close; " +
+	rep.Rule = "scenarios: trigger {local Close, peer-initiated Close (each also with a status-less Close frame), protocol violation (1002), read limit (1009), CloseRead policy violation (1008)} x peer echo {early, late, never} x 0..4 concurrent writers (Write and streaming Writer) x 0..2 pingers x role x compression x user Close after an error-triggered close; " +
 		"the raw peer records the complete frame trace until transport EOF; oracle: after the endpoint's first Close frame no data frame and no second Close frame. Timing perturbed by the seed. distinct = scenario tuple"
 	if ctx.replay != "" {
 		var cc c16Case
@@ -252,6 +261,9 @@ func runC16(ctx *runCtx) {
 								continue
 							}
 							cases = append(cases, c16Case{Client: client, Trigger: trig, Echo: echo, Writers: wr, Pingers: wr / 2, Flate: (wr+r)%2 == 1, ThenClose: then, Seed: ctx.seed + int64(len(cases))})
+							if (trig == "local-close" || trig == "peer-close") && wr > 0 {
+								cases = append(cases, c16Case{Client: client, Trigger: trig, Echo: echo, Writers: wr, Pingers: wr / 2, Flate: (wr+r)%2 == 0, ThenClose: then, NoStatus: true, Seed: ctx.seed + int64(len(cases))})
+							}
 						}
 					}
 				}
